@@ -106,8 +106,9 @@ fn exec(t: &Target, faults: &[Fault], rt: &tokio::runtime::Runtime, l: &mut Loca
     }
     for f in &j.findings {
         // clauses that name the decisive observable themselves (panic location, an RRSIG whose
-        // signer has no authority over the owner) need no fault scene
-        let key = if f.clause.starts_with("panic:") || f.clause.contains("signer-not-enclosing-owner") { f.clause.clone() } else { format!("{}|{}", f.clause, scene(t, faults)) };
+        // signer has no authority over the owner, an unauthenticated NSEC next to a Secure record
+        // of the same owner) need no fault scene
+        let key = if f.clause.starts_with("panic:") || f.clause.contains("signer-not-enclosing-owner") || f.clause.contains("unauthenticated-nsec-beside-secure-record-of-same-owner") { f.clause.clone() } else { format!("{}|{}", f.clause, scene(t, faults)) };
         clauses.push(key.clone());
         if !l.has_violation_key(&key) {
             // determinism: a violating case must reproduce
@@ -273,7 +274,7 @@ fn main() {
         let qk = key_of(&t.q.0, t.q.1);
         // quick tier: pairs for the positive A, DS and DNSKEY queries of every hierarchy
         let first_of_hier = t.hier.queries.iter().position(|q| *q == t.q).unwrap_or(0);
-        if !thorough && ![0usize, 4, 5].contains(&first_of_hier) {
+        if !thorough && ![0usize, 5, 6].contains(&first_of_hier) {
             cut_targets += 1;
             continue;
         }
@@ -281,7 +282,7 @@ fn main() {
             .singles
             .iter()
             .filter(|f| *f.q() == qk)
-            .filter(|f| matches!(f, Fault::Resp { mv: Move::ForgeUnsigned | Move::ForgeSignedBy(_) | Move::StripAnswer | Move::StripAuthority | Move::StripBoth, .. }))
+            .filter(|f| matches!(f, Fault::Resp { mv: Move::ForgeUnsigned | Move::ForgeSignedBy(_) | Move::ReplayWildcard { .. } | Move::StripAnswer | Move::StripAuthority | Move::StripBoth, .. }))
             .collect();
         for a in firsts {
             for b in t.singles.iter().filter(|f| *f.q() != qk) {
